@@ -98,3 +98,42 @@ extern "C" void c18_drive_conv(int outcome, int before, int conv_throws, int v, 
     catch (const c18_error &x) { g_lrec.exc_error++; g_lrec.exc_code = x.code; }
     catch (...) { g_lrec.exc_other++; }
 }
+
+// ---- audit E/D6: callback_await with a completion that THROWS while it handles the outcome ("runs exactly once per awaited operation").
+// The details of the FIRST call are recorded (that is the call the property speaks about); every call is counted.
+struct c18_throw_fn {
+    int throws;
+    void operator()(await_result<int> r) {
+        if (g_rec.calls++ == 0) {
+            try { int &v = *r; g_rec.has_value = 1; g_rec.value = v; }
+            catch (const await_canceled_exception &) { g_rec.exc_canceled++; }
+            catch (const c18_error &e) { g_rec.exc_error++; g_rec.exc_code = e.code; }
+            catch (...) { g_rec.exc_other++; }
+        }
+        if (throws) throw c18_error{-1};        // the consumer fails while handling the outcome
+    }
+};
+extern "C" void c18_drive_cbthrow(int outcome, int before, int throws, int v, int e) {
+    promise<int> parked;
+    c18_op op{&parked, before, outcome, v, e};
+    g_frame_kind = 3; callback_await<future<int> >(c18_throw_fn{throws}, op);
+    g_rec.calls_at_return = g_rec.calls;
+    if (!before) c18_resolve(parked, outcome, v, e);
+}
+
+// ---- audit E/D7 + W5: the awaited operation cannot be STARTED - the function that starts it throws (callback_await: inside the awaitable's constructor,
+// in the detached coroutine; discard: inside the factory).  Either the completion runs once with that exception, or the registering caller sees it.
+struct c18_failing_op { int e; void operator()(promise<int> p) const { throw c18_error{e}; } };
+int g_caller_saw, g_caller_code;
+extern "C" void c18_drive_cbctor(int e) {
+    c18_failing_op op{e};
+    try { g_frame_kind = 4; callback_await<future<int> >(c18_record_fn{}, op); }
+    catch (const c18_error &x) { g_caller_saw++; g_caller_code = x.code; }
+    g_rec.calls_at_return = g_rec.calls;
+}
+extern "C" void c18_drive_discard_fail(int e) {
+    c18_failing_op op{e};
+    try { discard([&]{ return future<int>(op); }); }
+    catch (const c18_error &x) { g_caller_saw++; g_caller_code = x.code; }
+    c18_probe(1);
+}
